@@ -1196,6 +1196,12 @@ class Engine:
         for name, p, info in pend:
             if found >= self.max_violations_per_leaf:
                 break        # enough counterexamples from this leaf; the rest stays undischarged (not counted)
+            if self.deadline is not None and time.time() > self.deadline:
+                # the configuration's deadline passed while this leaf was being decided: the remaining
+                # obligations stay undecided (reported, never counted as discharged)
+                self.unknowns.append("obligation:%s (configuration deadline reached)" % name)
+                self.exhaustive = False
+                continue
             self._flush()
             self.solver.push()
             self.solver.add(z3.Not(p))
